@@ -545,17 +545,25 @@ class Discharger:
             return None
         sites = 0
         for b in self.facts.bodies:
-            if b.impl and b.impl.get("derived"):
-                continue
+            derived = bool(b.impl and b.impl.get("derived"))
             for blk in b.blocks:
                 if blk.cleanup:
                     continue
                 for st in blk.stmts:
                     if st.kind == "assign" and st.rv.kind == "agg" and st.rv.agg.get("adt") == ty:
-                        sites += 1
                         tr = get_tracer(self.facts, b)
                         tt = tr.rvalue(st.rv, frozenset())
                         val = norm(dict(tt[3]).get(fname))
+                        if derived:
+                            # a derived Clone copies the field of an existing value (the invariant carries over); any other
+                            # derived constructor (Default: an empty vector) is a second, unchecked way to build the type
+                            v2 = val
+                            while v2[0] == "call" and v2[1] in ("Clone::clone", "Vec::clone") and v2[2]:
+                                v2 = norm(v2[2][0])
+                            if v2[0] == "field" and v2[2] == fname and v2[1][0] == "arg":
+                                continue
+                            return None
+                        sites += 1
                         gs = self.guards(b, blk.idx)
                         # value is to_vec/clone/collect of x with guard !is_empty(x)
                         src = val
